@@ -64,6 +64,8 @@ type Contract struct {
 	Lets     []Clause // `let name = expr` evaluated at entry (ghost abbreviations)
 	MayPanic bool    // `panics` clause present or `maypanic`
 	Logged   bool    // interface method whose invocations are recorded in the ghost trace (user-implementable protocol)
+	UseLemmas []string // proved lemmas whose statements are available (as quantified facts) in this function's obligations
+	AssumePre []string // preconditions of callees ("Callee/name") that are assumed, not proved, at call sites in this function
 	SpecPkg  string   // package whose scope resolves type names in the clauses (differs from PkgPath for external interfaces)
 	NoRefine bool     // interface contract that names results (oracle functions): implementations are not checked against it
 	Reveal   []string // opaque spec functions whose definitions are visible while this contract is being verified
@@ -105,6 +107,7 @@ type LemmaDecl struct {
 	// proof hints: `use expr` clauses are asserted facts that must themselves be proved first (assert-then-assume)
 	Uses []Clause
 	Reveal []string
+	Triggers []Clause // `trigger expr` terms forming the instantiation pattern when the lemma is used
 	Induct string // parameter name for induction on naturals
 }
 
@@ -125,7 +128,7 @@ type ContractSet struct {
 	Files  []string
 }
 
-var kwRe = regexp.MustCompile(`^(func|pure|axiom|lemma|requires|ensures|panics|exits|loop|decreases|inline|trusted|nopanic|let|maypanic|mayexit|modifies|use|induct|logged|reveal|noreturn|norefine|mutator|end)\b`)
+var kwRe = regexp.MustCompile(`^(func|pure|axiom|lemma|requires|ensures|panics|exits|loop|decreases|inline|trusted|nopanic|let|maypanic|mayexit|modifies|use|induct|logged|reveal|noreturn|norefine|mutator|assumepre|uselemma|trigger|end)\b`)
 
 type rawLine struct {
 	text string
@@ -317,6 +320,15 @@ func parseContractLines(lines []rawLine, fname, pkgPath string, cs *ContractSet)
 			case "let":
 				cur.Lets = append(cur.Lets, c)
 			}
+		case "trigger":
+			if curLemma == nil {
+				return fmt.Errorf("%s:%d: trigger outside lemma", fname, s.line)
+			}
+			e, err := ParseExpr(rest)
+			if err != nil {
+				return fmt.Errorf("%s:%d: %v", fname, s.line, err)
+			}
+			curLemma.Triggers = append(curLemma.Triggers, Clause{Name: "trigger", E: e, Src: rest, Line: s.line, File: fname})
 		case "induct":
 			if curLemma == nil {
 				return fmt.Errorf("%s:%d: induct outside lemma", fname, s.line)
@@ -370,6 +382,14 @@ func parseContractLines(lines []rawLine, fname, pkgPath string, cs *ContractSet)
 		case "logged":
 			if cur != nil {
 				cur.Logged = true
+			}
+		case "uselemma":
+			if cur != nil {
+				cur.UseLemmas = append(cur.UseLemmas, strings.Fields(strings.ReplaceAll(rest, ",", " "))...)
+			}
+		case "assumepre":
+			if cur != nil {
+				cur.AssumePre = append(cur.AssumePre, strings.Fields(strings.ReplaceAll(rest, ",", " "))...)
 			}
 		case "norefine":
 			if cur != nil {
